@@ -468,17 +468,17 @@ func (fv *FV) wfAxioms(key, c, alloc string) {
 	fv.ensureAlloc()
 	sort := fv.compSort[key]
 	if sort == arr(sInt, sSlice) {
-		fv.axioms = append(fv.axioms, fmt.Sprintf("(forall ((r Int)) (! (let ((s (select %s r))) (and (<= 0 (soff s)) (<= 0 (slen s)) (<= (slen s) (scap s)) (=> (= (sbase s) 0) (= (scap s) 0)) (select %s (sbase s)))) :pattern ((select %s r))))", c, alloc, c))
+		fv.axioms = append(fv.axioms, fmt.Sprintf("(forall ((r Int)) (! (let ((s (select %s r))) (and (<= 0 (soff s)) (<= 0 (slen s)) (<= (slen s) (scap s)) (=> (= (sbase s) 0) (= (scap s) 0)) (=> (select %s r) (select %s (sbase s))))) :pattern ((select %s r))))", c, alloc, alloc, c))
 	}
 	if fv.compKind[key] == "ptr" {
-		fv.axioms = append(fv.axioms, fmt.Sprintf("(forall ((r Int)) (! (select %s (select %s r)) :pattern ((select %s r))))", alloc, c, c))
+		fv.axioms = append(fv.axioms, fmt.Sprintf("(forall ((r Int)) (! (=> (select %s r) (select %s (select %s r))) :pattern ((select %s r))))", alloc, alloc, c, c))
 	}
 	if fv.compKind[key] == "emb" {
 		// an embedded library object always exists
 		fv.axioms = append(fv.axioms, fmt.Sprintf("(forall ((r Int)) (! (> (select %s r) 0) :pattern ((select %s r))))", c, c))
 	}
 	if fv.compKind[key] == "refelems" {
-		fv.axioms = append(fv.axioms, fmt.Sprintf("(forall ((r Int) (x Int)) (! (select %s (select (select %s r) x)) :pattern ((select (select %s r) x))))", alloc, c, c))
+		fv.axioms = append(fv.axioms, fmt.Sprintf("(forall ((r Int) (x Int)) (! (=> (select %s r) (select %s (select (select %s r) x))) :pattern ((select (select %s r) x))))", alloc, alloc, c, c))
 	}
 	if fv.compKind[key] == "mapdom" {
 		// the nil map has no keys
@@ -570,6 +570,7 @@ func (fv *FV) oblige(st *State, kind, phi, desc string, tags []string, pos token
 	for _, f := range fv.findings {
 		if f.Obligation == o.Name && f.RegionExpr != nil {
 			env := fv.localEnv(st, pos)
+			env.groundDiv = true
 			r := fv.spec(env, f.RegionExpr)
 			o.Region = r.S
 			o.Finding = f
